@@ -153,17 +153,18 @@ fn execute<'a>(tasks: &mut Vec<Option<Task<'a>>>, ops: &[Op], sh: &Shared, run: 
         }
         run.set_step(step);
         step += 1;
+        // every op of the history counts as executed (script steps take effect when the tasks are
+        // built); scheduler decisions without a target are counted as "without effect"
+        run.steps += 1;
         match op.code {
             OP_RUN => match (0..n).map(|d| (op.a as usize + d) % n).find(|&i| runnable(i, tasks, &last_poll, &polled)) {
                 Some(i) => {
-                    run.steps += 1;
                     poll_task(i, tasks, &mut last_poll, &mut polled, run);
                 }
                 None => run.noops += 1,
             },
             OP_TIMEOUT => match (0..n).map(|d| (op.a as usize + d) % n).find(|&i| tasks[i].is_some() && sh.giveup_wait[i].get()) {
                 Some(i) => {
-                    run.steps += 1;
                     if tls::last_wake(i * 2) > last_poll[i] {
                         sh.class(CL_TIMEOUT_WHILE_WOKEN);
                     }
